@@ -270,38 +270,92 @@ section_step!(c05_update_section_step_n3, 3);
 section_step!(c05_update_section_step_n4, 4);
 // @end
 
+// Stand-in for hashlittle in the byte round trips: since 69dcb3e the page parser re-computes the guard
+// of every stored entry, so with the real hash the solver has to prove lookup3(x) == lookup3(x) for two
+// copies of the ARX circuit per entry (n3: 577 s, n4: > 600 s).  The code only compares the stored with
+// the re-computed guard, so any deterministic function does; this one is a salted xor/rotate fold (the
+// salt is symbolic per run; an Ackermann-table UF needs an unwind bound that makes the parser loops
+// explode).
+static mut HL_SALT: u32 = 0;
+fn hashlittle_fold(d: &[u8], init: u32) -> u32 {
+    assert!(d.len() == 19, "guard input is bytes 4..23 of an entry");
+    let w0 = u32::from_le_bytes([d[0], d[1], d[2], d[3]]);
+    let w1 = u32::from_le_bytes([d[4], d[5], d[6], d[7]]);
+    let w2 = u32::from_le_bytes([d[8], d[9], d[10], d[11]]);
+    let w3 = u32::from_le_bytes([d[12], d[13], d[14], d[15]]);
+    let w4 = u32::from_le_bytes([d[16], d[17], d[18], 0]);
+    let salt = unsafe { HL_SALT };
+    w0 ^ w1.rotate_left(5) ^ w2.rotate_left(11) ^ w3.rotate_left(17) ^ w4.rotate_left(23) ^ salt ^ init.rotate_left(3)
+}
+
+/// Five entries whose raw fields are all drawn before the first (possibly stubbed) hash call.
+fn any_entries5() -> [UpdateEntry; 5] {
+    let keys: [[u8; 9]; 5] = kani::any();
+    let ids: [u16; 5] = kani::any();
+    let offs: [u32; 5] = kani::any();
+    let sizes: [u32; 5] = kani::any();
+    let sts: [u8; 5] = kani::any();
+    core::array::from_fn(|k| {
+        kani::assume(ids[k] <= 1023 && offs[k] < (1 << 30));
+        let st = match sts[k] & 3 {
+            0 => UpdateStatus::Normal,
+            1 => UpdateStatus::Delete,
+            2 => UpdateStatus::HeaderNonResident,
+            _ => UpdateStatus::DataNonResident,
+        };
+        UpdateEntry::new(keys[k], ArchiveLocation { archive_id: ids[k], archive_offset: offs[k] }, sizes[k], st)
+    })
+}
+
+macro_rules! section_roundtrip_body {
+    ($n:expr) => {{
+        const N: usize = $n;
+        unsafe { HL_SALT = kani::any() };
+        let es: [UpdateEntry; 5] = any_entries5();
+        let (s, count, _r) = build_section(&es, N);
+        let bytes = s.to_bytes();
+        assert!(bytes.len() == MIN_UPDATE_SECTION_SIZE, "section image is capacity_pages * UPDATE_PAGE_SIZE bytes");
+        let t = UpdateSection::from_bytes(&bytes);
+        assert!(t.capacity_pages() == s.capacity_pages(), "section round trip changed the capacity");
+        assert!(t.entry_count() == count, "section round trip changed the entry count");
+        {
+            let mut it = t.all_entries();
+            let mut k = 0;
+            while k < count {
+                assert!(it.next().is_some_and(|g| same_entry(g, &es[k])), "section round trip changed an entry or the order");
+                k += 1;
+            }
+        }
+        kani::cover!(t.entry_count() == count && t.page_count() == s.page_count(), "round trip complete");
+        std::mem::forget((t, bytes, s, es));
+    }};
+}
 macro_rules! section_roundtrip {
     ($name:ident, $n:expr) => {
         #[kani::proof]
-        #[kani::unwind(5)]
+        #[kani::unwind(6)]
+        #[kani::stub(cascette_crypto::jenkins::hashlittle, hashlittle_fold)]
         fn $name() {
-            const N: usize = $n;
-            let es: [UpdateEntry; 5] = [any_entry(), any_entry(), any_entry(), any_entry(), any_entry()];
-            let (s, count, _r) = build_section(&es, N);
-            let bytes = s.to_bytes();
-            assert!(bytes.len() == MIN_UPDATE_SECTION_SIZE, "section image is capacity_pages * UPDATE_PAGE_SIZE bytes");
-            let t = UpdateSection::from_bytes(&bytes);
-            assert!(t.capacity_pages() == s.capacity_pages(), "section round trip changed the capacity");
-            assert!(t.entry_count() == count, "section round trip changed the entry count");
-            {
-                let mut it = t.all_entries();
-                let mut k = 0;
-                while k < count {
-                    assert!(it.next().is_some_and(|g| same_entry(g, &es[k])), "section round trip changed an entry or the order");
-                    k += 1;
-                }
-            }
-            kani::cover!(t.entry_count() == count && t.page_count() == s.page_count(), "round trip complete");
-            std::mem::forget((t, bytes, s, es));
+            section_roundtrip_body!($n)
+        }
+    };
+}
+// the same with the real hashlittle (cross-check that the real guard function round-trips)
+macro_rules! section_roundtrip_realhash {
+    ($name:ident, $n:expr) => {
+        #[kani::proof]
+        #[kani::unwind(6)]
+        fn $name() {
+            section_roundtrip_body!($n)
         }
     };
 }
 // @family prop=C05 tier=quick timeout=600 role=update-section-bytes-roundtrip
 // @bounds section holding 1..=4 entries (name suffix N = appends before the last one; n4 = fifth append refused, 4 stored = every page full, image ends exactly at the buffer end); entries fully symbolic, built by UpdateEntry::new; every position compared
 // @encodes cascette_client_storage::index::update::UpdateSection::to_bytes, cascette_client_storage::index::update::UpdateSection::from_bytes, cascette_client_storage::index::update::UpdatePage::to_bytes, cascette_client_storage::index::update::UpdatePage::from_bytes, cascette_client_storage::index::update::UpdateEntry::to_bytes, cascette_client_storage::index::update::UpdateEntry::from_bytes
-// @assumes hook H3 scale model (2 pages x 2 entries, 8 slack bytes per page as in the real 512-byte page); real hashlittle guard (bit 31 set => slot never looks empty)
+// @assumes hook H3 scale model (2 pages x 2 entries, 8 slack bytes per page as in the real 512-byte page); n0 runs the real hashlittle, n1..n4 replace cascette_crypto::jenkins::hashlittle by a cheap deterministic stand-in (salted xor/rotate fold, salt symbolic; the guard's bit 31 is OR-ed in by the code itself): the parser only compares stored with re-computed guards, and with the real hash the solver must prove lookup3(x)==lookup3(x) per entry (measured: n3 577 s, n4 > 600 s)
 // @catches last page dropped by from_bytes (`<` instead of `<=` at the end of the buffer), last slot of a page dropped, page stride / slot stride errors, parse continuing past the first empty page, capacity not preserved
-section_roundtrip!(c05_update_section_bytes_n0, 0);
+section_roundtrip_realhash!(c05_update_section_bytes_n0, 0);
 section_roundtrip!(c05_update_section_bytes_n1, 1);
 section_roundtrip!(c05_update_section_bytes_n2, 2);
 section_roundtrip!(c05_update_section_bytes_n3, 3);
